@@ -77,6 +77,9 @@ func concretise(class string, rng *rand.Rand, allowNUL bool) string {
 		return "x" + strings.Repeat(core+" ", 11*1024*1024/(len(core)+1)) + "y"
 	case "html200k":
 		return "x" + strings.Repeat("<&>", 200*1024/3) + "y"
+	case "mentions_id":
+		// the ids of a pruned item and of a live one are substituted once the store exists
+		return core + " (see @PRUNED@, blocked by @LIVE@) " + words(rng, 2)
 	case "json_like":
 		return []string{`{"title":"x","state":"done"}`, `--json`, `null`, `["a"]`, `-q`}[rng.Intn(5)] + " " + core
 	}
@@ -166,6 +169,21 @@ func (t *textRunner) attempt(c textCase, s string, dir string, rng *rand.Rand) (
 		return nil, err
 	}
 	defer removeAll(root)
+	if strings.Contains(s, "@PRUNED@") {
+		mk := func(state string) string {
+			b, _ := json.Marshal(map[string]any{"title": "referenced", "state": state})
+			var m map[string]any
+			_ = json.Unmarshal(st.run(b, nil, "--json", "new", "task").Stdout, &m)
+			x, _ := m["id"].(string)
+			return x
+		}
+		pruned, live := mk("done"), mk("todo")
+		if r := st.run(nil, nil, "--json", "prune", "--yes"); r.Exit != 0 || pruned == "" || live == "" {
+			return nil, nil // scaffolding failed: nothing to round-trip
+		}
+		s = strings.ReplaceAll(strings.ReplaceAll(s, "@PRUNED@", pruned), "@LIVE@", live)
+	}
+	logStart, _ := os.ReadFile(st.LogPath())
 	other := "plain " + words(rng, 2)
 	title, body := other, other
 	if c.Field == "title" {
@@ -306,7 +324,7 @@ func (t *textRunner) attempt(c textCase, s string, dir string, rng *rand.Rand) (
 	logNow, _ := os.ReadFile(st.LogPath())
 	if rejected && c.Cmd != "set" {
 		// nothing may have been created
-		logBefore = logNow[:0]
+		logBefore = logStart
 	}
 	if !rejected {
 		rel = read()
